@@ -86,6 +86,15 @@ def families():
     F["filter:nesting-not"] = ("filter", lambda n: "(!" * (n // 3) + "(a=b)" + ")" * (n // 3))
     F["filter:nesting-and-or"] = ("filter", lambda n: "(&(|" * (n // 6) + "(a=b)" + "))" * (n // 6))
     F["filter:nesting-siblings"] = ("filter", lambda n: "(&(x=y)" * (n // 8) + "(a=b)" + ")" * (n // 8))
+    # nests in which only a fraction of the closing parentheses is present and the innermost value is long: error
+    # recovery that retries a sub-filter with a different range compounds per level
+    for name, num, den in (("quarter", 1, 4), ("half", 1, 2), ("three-quarters", 3, 4), ("all-but-one", None, None)):
+        for op in ("&", "!"):
+            def fam(n, num=num, den=den, op=op):
+                d = max(n // 4, 1)
+                closers = d - 1 if num is None else d * num // den
+                return ("(" + op) * d + "(a=" + "1" * d + ")" * closers
+            F[f"filter:nesting-{'and' if op == '&' else 'not'}-{name}-closed"] = ("filter", fam)
     F["filter:nesting-unclosed"] = ("filter", lambda n: "(&" * (n // 2))
     F["filter:wide-and"] = ("filter", lambda n: "(&" + "(a=b)" * (n // 5) + ")")
     F["filter:escapes"] = ("filter", lambda n: "(a=" + "\\41" * (n // 3) + ")")
